@@ -254,7 +254,9 @@ func checkC19(p *Prog, l *Ledger) {
 	}
 	// "status 70 iff … hit a runtime error" needs the run to end after the error: eval is a no-op once the flag is set and
 	// no loop can keep cycling in that state (rules of C06)
-	l.AsOnly(map[string]string{"C06/S2-guarded-eval": "C19/S1-ends-after-error/guarded-eval", "C06/S3-bounded-after-error": "C19/S1-ends-after-error/loops", "C06/S2-effect-after-error": "C19/S1-ends-after-error/effects"}, func() { checkC06(p, l) })
+	l.AsOnly(map[string]string{"C06/S2-guarded-eval": "C19/S1-ends-after-error/guarded-eval", "C06/S3-bounded-after-error": "C19/S1-ends-after-error/loops", "C06/S2-effect-after-error": "C19/S1-ends-after-error/effects",
+		// status 70 iff a runtime error: an invalid operation that is not detected ends with status 0 (C06's detection rules)
+		"C06/S0-fault-detected": "C19/S2-status-70/fault-detected"}, func() { checkC06(p, l) })
 	// ---- S2
 	checkFlagWriters(p, l, "C19/S2-flag-ownership")
 	checkFlagCallers(p, l, "C19/S2-flag-ownership")
